@@ -1552,7 +1552,17 @@ func (vc *VC) chanOwner(ch ssa.Value) *SVal {
 // noteGuarded remembers, for the address &x.f of a guarded field, the address of the mutex that guards it. Accesses
 // to an object allocated in the same function (not yet shared: constructors) are exempt.
 func (vc *VC) noteGuarded(x *ssa.FieldAddr, base *Loc, st *State) {
-	if len(vc.w.guards) == 0 || base.kind != lStruct {
+	if len(vc.w.guards) == 0 {
+		return
+	}
+	if outer, ok := x.X.(*ssa.FieldAddr); ok {
+		// a component of a guarded struct-typed field (s.processing.Num) is guarded like the field
+		if a, ok := vc.guardOf[outer]; ok {
+			vc.guardOf[x] = a
+			return
+		}
+	}
+	if base.kind != lStruct {
 		return
 	}
 	// (the root of the access path &a.f.g... is an allocation of this function)
